@@ -10,7 +10,7 @@ def available():
     return os.path.exists(os.path.join(vlib.LEAN_DIR, "Yarel", "Drv", "Spec.lean"))
 
 
-def run_spec(case_lines, fuel=None):
+def _run_spec_chunk(case_lines):
     out, rc, err = vlib.run_lines([vlib.MODEL_EXE, "spec"], case_lines, timeout=1800)
     res = []
     for l in out:
@@ -21,6 +21,21 @@ def run_spec(case_lines, fuel=None):
     if len(res) != len(case_lines):
         raise RuntimeError("spec driver answered %d lines for %d cases (rc=%s) %s" % (len(res), len(case_lines), rc, err[-500:]))
     return res
+
+
+def run_spec(case_lines, fuel=None):
+    """Cases are independent (every case starts from a bootstrapped interpreter), so chunks run in parallel processes."""
+    if not case_lines:
+        return []
+    workers = int(os.environ.get("VERIF_WORKERS", "0")) or min(12, os.cpu_count() or 1)
+    size = max(10, -(-len(case_lines) // workers))
+    chunks = [case_lines[i:i + size] for i in range(0, len(case_lines), size)]
+    if len(chunks) == 1:
+        return _run_spec_chunk(chunks[0])
+    from concurrent.futures import ThreadPoolExecutor
+    with ThreadPoolExecutor(max_workers=workers) as ex:
+        outs = list(ex.map(_run_spec_chunk, chunks))
+    return [r for o in outs for r in o]
 
 
 def canon_spec_step(st):
